@@ -2,7 +2,7 @@
 """
 Manage the independently written breaking changes under /verif/seeded/.
 
-    seeded.py import C01            copy /tmp/seed/C01/{patch,demo}_{a,b} into seeded/C01a, C01b
+    seeded.py import C01 [--round N]  copy /tmp/seed<N>/C01/{patch,demo}_{a,b} into seeded/C01a, C01b (c/d, e/f, g/h for rounds 2-4)
     seeded.py confirm NAME [--suite]  scratch worktree: demo passes without, fails with the patch;
                                       with --suite also run the pinned test suite with the patch
     seeded.py check NAME [PROP ...] [--tier T]   run our checks against the patched tree
@@ -43,13 +43,13 @@ def save_meta(name, meta):
 
 
 def cmd_import(args):
-    src = os.path.join({1: "/tmp/seed", 2: "/tmp/seed2", 3: "/tmp/seed3"}[args.round], args.prop)
+    src = os.path.join({1: "/tmp/seed", 2: "/tmp/seed2", 3: "/tmp/seed3", 4: "/tmp/seed4"}[args.round], args.prop)
     for letter in "ab":
         patch = os.path.join(src, "patch_%s.diff" % letter)
         demo = os.path.join(src, "demo_%s.py" % letter)
         if not (os.path.exists(patch) and os.path.exists(demo)):
             continue
-        name = "%s%s" % (args.prop, {1: {"a": "a", "b": "b"}, 2: {"a": "c", "b": "d"}, 3: {"a": "e", "b": "f"}}[args.round][letter])
+        name = "%s%s" % (args.prop, {1: {"a": "a", "b": "b"}, 2: {"a": "c", "b": "d"}, 3: {"a": "e", "b": "f"}, 4: {"a": "g", "b": "h"}}[args.round][letter])
         d = os.path.join(SEEDED, name)
         os.makedirs(d, exist_ok=True)
         shutil.copy(patch, os.path.join(d, "patch.diff"))
